@@ -151,6 +151,7 @@ type c16Env struct {
 	maxSize int
 	leaves  []c16Hash // ground truth, prefixes are the trees
 	decoy   []c16Hash // the tree the witness actually has pending
+	fork    []c16Hash // another log under the same origin (history scenarios)
 
 	logKey   *c16EdKey
 	wEd      *c16EdKey
@@ -160,7 +161,7 @@ type c16Env struct {
 
 	verifiers []c16Verifier
 	worlds    map[bool]*c16World
-	signed    map[int]*c16Signed
+	signed    map[string]*c16Signed
 	forgedW   string
 	forgedM   string
 	forgedWs  string
@@ -177,9 +178,10 @@ func c16Garbage(label string, n int) []byte {
 }
 
 func c16NewEnv(maxSize int) (*c16Env, error) {
-	e := &c16Env{maxSize: maxSize, worlds: map[bool]*c16World{}, signed: map[int]*c16Signed{}}
+	e := &c16Env{maxSize: maxSize, worlds: map[bool]*c16World{}, signed: map[string]*c16Signed{}}
 	for i := 0; i < maxSize; i++ {
 		e.leaves = append(e.leaves, verifmc.LeafHash([]byte(fmt.Sprintf("c16 leaf %d", i))))
+		e.fork = append(e.fork, verifmc.LeafHash([]byte(fmt.Sprintf("c16 fork leaf %d", i))))
 	}
 	for i := 0; i < c16DecoySize; i++ {
 		e.decoy = append(e.decoy, verifmc.LeafHash([]byte(fmt.Sprintf("c16 decoy leaf %d", i))))
@@ -292,11 +294,30 @@ func (e *c16Env) newWorld(mirror bool) (*c16World, error) {
 	return wd, nil
 }
 
-func (e *c16Env) signedFor(n int) *c16Signed {
-	if s, ok := e.signed[n]; ok {
+// treeLeaves returns the leaves of a presented tree: "" is the ground-truth
+// log (prefixes of one leaf list), "fork" a log with the same sizes and other
+// leaves, "decoy" the tree the witness has pending (one size only).
+func (e *c16Env) treeLeaves(tree string, n int) []c16Hash {
+	switch tree {
+	case "":
+		return e.leaves[:n]
+	case "fork":
+		return e.fork[:n]
+	case "decoy":
+		if n != len(e.decoy) {
+			panic(verifmc.EngineError{Msg: "c16: the decoy tree has one size only"})
+		}
+		return e.decoy
+	}
+	panic(verifmc.EngineError{Msg: "c16: unknown tree " + tree})
+}
+
+func (e *c16Env) signedFor(tree string, n int) *c16Signed {
+	key := fmt.Sprintf("%s/%d", tree, n)
+	if s, ok := e.signed[key]; ok {
 		return s
 	}
-	root := verifmc.MTH(e.leaves[:n])
+	root := verifmc.MTH(e.treeLeaves(tree, n))
 	text := c16CheckpointText(c16Origin, n, root)
 	s := &c16Signed{
 		text: text,
@@ -308,7 +329,7 @@ func (e *c16Env) signedFor(n int) *c16Signed {
 		f:    e.foreign.cosignCheckpoint(c16Origin, n, root, c16CosigTimestamp),
 		i:    e.impostor.cosignCheckpoint(c16Origin, n, root, c16CosigTimestamp),
 	}
-	e.signed[n] = s
+	e.signed[key] = s
 	return s
 }
 
@@ -560,6 +581,7 @@ func (e *c16Env) variants(level int, n, start, end int) (out []c16Variant, base 
 
 type c16Case struct {
 	Mirror  bool   `json:"mirror_configured"`
+	Tree    string `json:"tree,omitempty"` // "" ground-truth log, "fork", "decoy"
 	Size    int    `json:"size"`
 	Start   int    `json:"start"`
 	End     int    `json:"end"`
@@ -596,15 +618,19 @@ func (e *c16Env) request(c c16Case, sg *c16Signer, v *c16Variant) string {
 		b.WriteString(base64.StdEncoding.EncodeToString(h[:]) + "\n")
 	}
 	b.WriteByte('\n')
-	b.WriteString(sg.note(e, e.signedFor(c.Size)))
+	b.WriteString(sg.note(e, e.signedFor(c.Tree, c.Size)))
 	return b.String()
 }
 
 func (e *c16Env) run(c c16Case, sg *c16Signer, v *c16Variant) *c16Outcome {
-	wd := e.worlds[c.Mirror]
+	return e.runOn(e.worlds[c.Mirror], c, sg, v)
+}
+
+// runOn sends the request to the given witness and judges the response.
+func (e *c16Env) runOn(wd *c16World, c c16Case, sg *c16Signer, v *c16Variant) *c16Outcome {
 	o := &c16Outcome{}
 	n, start, end := c.Size, c.Start, c.End
-	leaves := e.leaves[:n]
+	leaves := e.treeLeaves(c.Tree, n)
 	root := verifmc.MTH(leaves)
 
 	// ---- reference predicate
@@ -641,11 +667,10 @@ func (e *c16Env) run(c c16Case, sg *c16Signer, v *c16Variant) *c16Outcome {
 		allowed[400] = true
 	}
 	if len(own) == 0 || len(forged) > 0 || sg.textDefect {
-		if len(own) == 0 {
-			o.defects = append(o.defects, "no-own-mldsa-cosignature")
-		}
 		if len(forged) > 0 {
 			o.defects = append(o.defects, "invalid-line-with-own-key-id")
+		} else if len(own) == 0 {
+			o.defects = append(o.defects, "no-own-mldsa-cosignature")
 		}
 		allowed[403] = true
 		if sg.textDefect {
@@ -810,6 +835,25 @@ func TestVerifC16(t *testing.T) {
 	if rp.Thorough() {
 		maxSize = 17
 	}
+	if rf := rp.Replay(); rf != nil && rf.Scenario == c16HistScenario {
+		var h c16Hist
+		if err := json.Unmarshal(rf.Input, &h); err != nil {
+			engineFail("bad replay input: " + err.Error())
+		}
+		for _, x := range []int{h.SourceSize, h.ReqSize()} {
+			if x > maxSize {
+				maxSize = x
+			}
+		}
+		env, err := c16NewEnv(maxSize + 1)
+		if err != nil {
+			engineFail(err.Error())
+		}
+		if err := env.replayHistory(rp, h); err != nil {
+			engineFail(err.Error())
+		}
+		return
+	}
 	if rf := rp.Replay(); rf != nil {
 		var c c16Case
 		if err := json.Unmarshal(rf.Input, &c); err != nil {
@@ -904,7 +948,7 @@ loop:
 							if len(o.defects) == 1 {
 								cat = o.defects[0]
 							}
-							if !sampled[cat] && len(o.defects) <= 1 && n >= 5 && start > 0 && (o.expect != "sign" || len(o.wantOwn) == 2) {
+							if !sampled[cat] && len(sampled) < 5 && len(o.defects) <= 1 && n >= 5 && start > 0 && (o.expect != "sign" || len(o.wantOwn) == 2) {
 								sampled[cat] = true
 								rp.Sample(map[string]any{"case": c, "in_tree": inTree, "hash_proof_computed_for_range": []int{base.s, base.e}, "status": o.status, "expect": o.expect,
 									"defects": o.defects, "signed_by": o.signedBy, "request": c16Trunc(o.request), "response": c16Trunc(o.body)})
@@ -918,6 +962,11 @@ loop:
 		completed = n
 	}
 	rp.Note("largest_size_completed_by_shard0", fmt.Sprint(completed))
+	if completed == maxSize {
+		if err := env.histories(rp, maxSize, &i); err != nil {
+			engineFail(err.Error())
+		}
+	}
 	rp.Add("states", cases)
 	rp.Add("transitions", requests)
 	rp.Add("requests_answered_200", accepted)
